@@ -570,6 +570,81 @@ proof fn lemma_attr_names()
         && k_bool().len() == 20 && k_vtype().len() == 17);
 }
 
+
+//@@ props C19
+// ---- the paragraph rule on the examples of the property statement (validation of the specification itself)
+pub open spec fn ev_start(name: Seq<u8>) -> Ev { Ev { kind: EvKind::Start, name, attrs: Seq::empty(), text: Seq::empty(), text_ok: true } }
+pub open spec fn ev_end(name: Seq<u8>) -> Ev { Ev { kind: EvKind::End, name, attrs: Seq::empty(), text: Seq::empty(), text_ok: true } }
+pub open spec fn ev_text(t: Seq<char>) -> Ev { Ev { kind: EvKind::Text, name: Seq::empty(), attrs: Seq::empty(), text: t, text_ok: true } }
+/// <text:p/><text:p>abc</text:p> reads "\nabc": an empty first paragraph still counts
+proof fn example_empty_first_paragraph()
+    ensures
+        //# C19.ods_example_empty_first_paragraph
+        cell_text(seq![ev_start(n_p()), ev_end(n_p()), ev_start(n_p()), ev_text("abc"@), ev_end(n_p()), ev_end(n_cell())], 0) == seq!['\n'] + "abc"@,
+{
+    lemma_attr_names();
+    assert(n_p().len() == 6 && n_cell().len() == 16 && n_covered().len() == 24 && n_annotation().len() == 17);
+    let evs = seq![ev_start(n_p()), ev_end(n_p()), ev_start(n_p()), ev_text("abc"@), ev_end(n_p()), ev_end(n_cell())];
+    let s0 = txt_init();
+    let s1 = txt_step(s0, evs[0]); assert(cell_scan(evs, 0, s0) == cell_scan(evs, 1, s1));
+    let s2 = txt_step(s1, evs[1]); assert(cell_scan(evs, 1, s1) == cell_scan(evs, 2, s2));
+    let s3 = txt_step(s2, evs[2]); assert(cell_scan(evs, 2, s2) == cell_scan(evs, 3, s3));
+    let s4 = txt_step(s3, evs[3]); assert(cell_scan(evs, 3, s3) == cell_scan(evs, 4, s4));
+    let s5 = txt_step(s4, evs[4]); assert(cell_scan(evs, 4, s4) == cell_scan(evs, 5, s5));
+    assert(cell_scan(evs, 5, s5).st == s5);
+    assert(s5.s =~= seq!['\n'] + "abc"@);
+}
+/// "a", "", "b" reads "a\n\nb": an empty paragraph in the middle contributes its own newline
+proof fn example_empty_middle_paragraph()
+    ensures
+        //# C19.ods_example_empty_middle_paragraph
+        cell_text(seq![ev_start(n_p()), ev_text("a"@), ev_end(n_p()), ev_start(n_p()), ev_end(n_p()), ev_start(n_p()), ev_text("b"@), ev_end(n_p()),
+            ev_end(n_cell())], 0) == "a"@ + seq!['\n', '\n'] + "b"@,
+{
+    lemma_attr_names();
+    assert(n_p().len() == 6 && n_cell().len() == 16 && n_covered().len() == 24 && n_annotation().len() == 17);
+    let evs = seq![ev_start(n_p()), ev_text("a"@), ev_end(n_p()), ev_start(n_p()), ev_end(n_p()), ev_start(n_p()), ev_text("b"@), ev_end(n_p()), ev_end(n_cell())];
+    let s0 = txt_init();
+    let s1 = txt_step(s0, evs[0]); assert(cell_scan(evs, 0, s0) == cell_scan(evs, 1, s1));
+    let s2 = txt_step(s1, evs[1]); assert(cell_scan(evs, 1, s1) == cell_scan(evs, 2, s2));
+    let s3 = txt_step(s2, evs[2]); assert(cell_scan(evs, 2, s2) == cell_scan(evs, 3, s3));
+    let s4 = txt_step(s3, evs[3]); assert(cell_scan(evs, 3, s3) == cell_scan(evs, 4, s4));
+    let s5 = txt_step(s4, evs[4]); assert(cell_scan(evs, 4, s4) == cell_scan(evs, 5, s5));
+    let s6 = txt_step(s5, evs[5]); assert(cell_scan(evs, 5, s5) == cell_scan(evs, 6, s6));
+    let s7 = txt_step(s6, evs[6]); assert(cell_scan(evs, 6, s6) == cell_scan(evs, 7, s7));
+    let s8 = txt_step(s7, evs[7]); assert(cell_scan(evs, 7, s7) == cell_scan(evs, 8, s8));
+    assert(cell_scan(evs, 8, s8).st == s8);
+    assert(s8.s =~= "a"@ + seq!['\n', '\n'] + "b"@);
+}
+/// text inside <office:annotation> contributes nothing
+proof fn example_annotation_ignored()
+    ensures
+        //# C19.ods_example_annotation_ignored
+        cell_text(seq![ev_start(n_annotation()), ev_start(n_p()), ev_text("note"@), ev_end(n_p()), ev_end(n_annotation()),
+            ev_start(n_p()), ev_text("x"@), ev_end(n_p()), ev_end(n_cell())], 0) == "x"@,
+{
+    lemma_attr_names();
+    assert(n_p().len() == 6 && n_cell().len() == 16 && n_covered().len() == 24 && n_annotation().len() == 17);
+    let evs = seq![ev_start(n_annotation()), ev_start(n_p()), ev_text("note"@), ev_end(n_p()), ev_end(n_annotation()),
+            ev_start(n_p()), ev_text("x"@), ev_end(n_p()), ev_end(n_cell())];
+    let s0 = txt_init();
+    let s1 = txt_step(s0, evs[0]); assert(cell_scan(evs, 0, s0) == cell_scan(evs, 1, s1));
+    let s2 = txt_step(s1, evs[1]); assert(cell_scan(evs, 1, s1) == cell_scan(evs, 2, s2));
+    let s3 = txt_step(s2, evs[2]); assert(cell_scan(evs, 2, s2) == cell_scan(evs, 3, s3));
+    let s4 = txt_step(s3, evs[3]); assert(cell_scan(evs, 3, s3) == cell_scan(evs, 4, s4));
+    let s5 = txt_step(s4, evs[4]); assert(cell_scan(evs, 4, s4) == cell_scan(evs, 5, s5));
+    let s6 = txt_step(s5, evs[5]); assert(cell_scan(evs, 5, s5) == cell_scan(evs, 6, s6));
+    let s7 = txt_step(s6, evs[6]); assert(cell_scan(evs, 6, s6) == cell_scan(evs, 7, s7));
+    let s8 = txt_step(s7, evs[7]); assert(cell_scan(evs, 7, s7) == cell_scan(evs, 8, s8));
+    assert(cell_scan(evs, 8, s8).st == s8);
+    assert(s8.s =~= "x"@);
+}
+/// witnesses: the resource-bound preconditions of read_table / parse_content are satisfiable (an empty part)
+proof fn witness_resource_bounds()
+    ensures Seq::<Ev>::empty().len() < 0x7fff_fffe,
+{}
+
+//@@ props C04
 //@@ fn src/ods.rs get_datatype props=C04,C19,C14 entry ret=r r11 r12
 //@@ r6 0
 //@@ sig
